@@ -179,7 +179,8 @@ def _check_specific_rule_ignore(line: str, rule_id: str) -> bool:
     space_match = re.search(r"ignore-file\s+([^\s#]+(?:\s+[^\s#]+)*)", line, re.IGNORECASE)
     if space_match:
         return check_space_separated_rules(space_match.group(1), rule_id)
-    return False
+    # Bare "ignore-file" (no rule list) applies to every rule
+    return re.search(r"ignore-file\s*$", line.strip(), re.IGNORECASE) is not None
 
 
 def _check_specific_rule_in_line(code: str, rule_id: str) -> bool:
@@ -190,6 +191,8 @@ def _check_specific_rule_in_line(code: str, rule_id: str) -> bool:
     space_match = re.search(r"ignore\s+([^\s#]+(?:\s+[^\s#]+)*)", code, re.IGNORECASE)
     if space_match:
         return check_space_separated_rules(space_match.group(1), rule_id)
+    if re.search(r"(thailint|design-lint):\s*ignore\s*$", code.strip(), re.IGNORECASE):
+        return True  # bare "ignore" (no rule list) applies to every rule
     return "ignore-all" in code.lower()
 
 
@@ -291,7 +294,7 @@ def _get_prev_line(lines: list[str], violation_line: int) -> str | None:
 
 def _matches_ignore_next_line_rules(prev_line: str, rule_id: str) -> bool:
     """Check if ignore-next-line directive matches the rule."""
-    match = re.search(r"ignore-next-line\[([^\]]+)\]", prev_line)
+    match = re.search(r"ignore-next-line\[([^\]]+)\]", prev_line, re.IGNORECASE)
     if match:
         return check_bracket_rules(match.group(1), rule_id)
     return True
